@@ -5,6 +5,10 @@ package main
 import (
 	"crypto/x509"
 	"encoding/pem"
+	"fmt"
+	"os"
+	"os/exec"
+	"path/filepath"
 	"strings"
 	"sync"
 	"time"
@@ -134,4 +138,53 @@ func (env *c1719Env) signerOf(chainPEM []byte) int {
 		}
 	}
 	return -1
+}
+
+// c1719ScratchRepo copies the library's non-test Go files, go.mod/go.sum and internal/ from
+// $VERIF_REPO into a fresh directory under the run's temp dir, for classes that compile and run an
+// in-package test as a separate process (race detector; a shrunk retry horizon). The repository
+// itself is never touched.
+func c1719ScratchRepo(prefix string) (dir string, cleanup func(), err error) {
+	repo := os.Getenv("VERIF_REPO")
+	if repo == "" {
+		repo = "/repo"
+	}
+	tmp, err := os.MkdirTemp("", prefix)
+	if err != nil {
+		return "", nil, err
+	}
+	cleanup = func() { os.RemoveAll(tmp) }
+	ents, err := os.ReadDir(repo)
+	if err != nil {
+		cleanup()
+		return "", nil, err
+	}
+	for _, e := range ents {
+		n := e.Name()
+		if e.IsDir() || strings.HasSuffix(n, "_test.go") || !(strings.HasSuffix(n, ".go") || n == "go.mod" || n == "go.sum") {
+			continue
+		}
+		b, err := os.ReadFile(filepath.Join(repo, n))
+		if err == nil {
+			err = os.WriteFile(filepath.Join(tmp, n), b, 0o644)
+		}
+		if err != nil {
+			cleanup()
+			return "", nil, err
+		}
+	}
+	if err := exec.Command("cp", "-r", filepath.Join(repo, "internal"), filepath.Join(tmp, "internal")).Run(); err != nil {
+		cleanup()
+		return "", nil, fmt.Errorf("copying internal/: %v", err)
+	}
+	return tmp, cleanup, nil
+}
+
+// c1719GoEnv is the environment for a go command run by the harness (offline, local toolchain).
+func c1719GoEnv(cgo bool) []string {
+	env := append(os.Environ(), "GOFLAGS=-mod=mod", "GOPROXY=off", "GOSUMDB=off", "GOTOOLCHAIN=local")
+	if cgo {
+		env = append(env, "CGO_ENABLED=1")
+	}
+	return env
 }
